@@ -201,4 +201,23 @@ def gObs (c : Cfg GShared GLocal) : GObs :=
 
 def holdsG (o : GObs) : Bool := o.live == 0 && o.closed
 
+/-! ### Late attach: after the last Close returned, every connection that was attached to the
+bridge has been closed exactly once (none is still attached). -/
+
+structure AObs where
+  satt : Nat
+  stc : Nat
+  tatt : Nat
+  ttc : Nat
+  lostS : Nat
+  lostT : Nat
+  open_ : Nat             -- attached connections that were never closed and are still referenced
+  deriving DecidableEq, Repr
+
+def aObs (sh : AShared) : AObs :=
+  ⟨sh.satt, sh.stc, sh.tatt, sh.ttc, sh.lostS, sh.lostT, b2n sh.srcTC + b2n sh.tgtTC⟩
+
+def holdsA (o : AObs) : Bool :=
+  o.open_ == 0 && o.stc + o.lostS == o.satt && o.ttc + o.lostT == o.tatt
+
 end Tunnox.C16
